@@ -589,6 +589,26 @@ pub fn generate(
                     ops.push("s0 dump".into());
                     emit(Case { family: "entk6".into(), seed, cfg: cfg(0, 0, 1, small_pool()), ops });
                 });
+                // two levels of directories: an entry can be durable while its parent, or only its
+                // grandparent, is not — the crash image must still be a tree (every proper ancestor)
+                let deep = vec![
+                    M::Mkdir("/d"),
+                    M::Mkdir("/d/e"),
+                    M::WriteFile("/d/e/a", b"AB"),
+                    M::Fsync("/d/e/a"),
+                    M::SyncDir("/d/e"),
+                    M::SyncDir("/d"),
+                    M::SyncDir("/"),
+                ];
+                enumerate(&deep, if thorough { 6 } else { 5 }, &mut |idx| {
+                    let mut ops = vec![];
+                    for i in idx.iter() {
+                        expand(&deep[*i], "s0", &mut ops);
+                    }
+                    ops.push("s0 crash".into());
+                    ops.push("s0 dump".into());
+                    emit(Case { family: "entd".into(), seed, cfg: cfg(0, 0, 1, default_pool()), ops });
+                });
                 let lens: Vec<usize> = if thorough { vec![5, 6] } else { vec![5] };
                 for (name, alpha) in [("entf", &flat), ("ents", &sub)] {
                     for len in lens.iter() {
